@@ -31,6 +31,9 @@ type KeyView struct {
 	Table     map[party.ID]oracle.Pt
 	ChainKey  []byte
 	Aux       string // canonical rendering of the auxiliary public keys (CMP)
+	// Reported is the group key as the library's own accessor reports it, where the material does not store it
+	// (cmp.Config.PublicPoint()); nil otherwise
+	Reported *oracle.Pt
 }
 
 func scalar(v interface{}) (*big.Int, error) {
@@ -120,6 +123,12 @@ func View(cfg interface{}) (*KeyView, error) {
 		if len(xs) > 0 {
 			v.Group = oracle.InterpolatePointsAt0(xs, pts)
 		}
+		func() {
+			defer func() { _ = recover() }()
+			if rp, err := point(c.PublicPoint()); err == nil {
+				v.Reported = &rp
+			}
+		}()
 		return v, nil
 	case *frost.Config:
 		if c == nil {
@@ -285,6 +294,9 @@ func ConsistentSharing(views map[party.ID]*KeyView, subsetLimit int) []string {
 		}
 		if v.Aux != first.Aux {
 			probs = append(probs, fmt.Sprintf("party %s and %s disagree on auxiliary public keys", id, ids[0]))
+		}
+		if v.Reported != nil && !oracle.Equal(*v.Reported, v.Group) {
+			probs = append(probs, fmt.Sprintf("party %s reports a group public key that is not the public key of the shared secret (table interpolation)", id))
 		}
 		if v.ID != id {
 			probs = append(probs, fmt.Sprintf("result of party %s carries id %q", id, v.ID))
